@@ -176,6 +176,86 @@ func returnsFreshFrom(c *Ctx, H *ssa.Function, ctor string) bool {
 	return good && n > 0
 }
 
+// isTallyField: the store st increments a numeric field by a constant (f = f + k), and everywhere in
+// the repository the field is otherwise only read to be logged: a tally of files written, which
+// cannot influence how the next file is processed.
+func (c *Ctx) isTallyField(fa *ssa.FieldAddr, st *ssa.Store) bool {
+	b, ok := st.Val.(*ssa.BinOp)
+	if !ok || b.Op != token.ADD {
+		return false
+	}
+	own, ok := b.X.(*ssa.UnOp)
+	if !ok || own.Op != token.MUL {
+		return false
+	}
+	ofa, ok := own.X.(*ssa.FieldAddr)
+	if !ok || ofa.X != fa.X || ofa.Field != fa.Field {
+		return false
+	}
+	if _, isConst := b.Y.(*ssa.Const); !isConst {
+		return false
+	}
+	f := fieldVarOf(fa)
+	if f == nil {
+		return false
+	}
+	stores, loads := c.fieldAccesses(f)
+	for _, s2 := range stores {
+		if _, isConst := s2.Val.(*ssa.Const); isConst {
+			continue
+		}
+		b2, ok := s2.Val.(*ssa.BinOp)
+		if !ok || b2.Op != token.ADD {
+			return false
+		}
+		if _, isConst := b2.Y.(*ssa.Const); !isConst {
+			return false
+		}
+	}
+	for _, ld := range loads {
+		for _, r := range referrers(ld) {
+			switch x := r.(type) {
+			case *ssa.BinOp:
+				// the increment itself
+				isInc := false
+				for _, rr := range referrers(x) {
+					if s3, ok := rr.(*ssa.Store); ok {
+						if a3, ok := s3.Addr.(*ssa.FieldAddr); ok && fieldVarOf(a3) == f {
+							isInc = true
+						}
+					}
+				}
+				if !isInc {
+					return false
+				}
+			case *ssa.MakeInterface:
+				// handed to a log call
+				for _, rr := range referrers(x) {
+					okUse := false
+					switch y := rr.(type) {
+					case *ssa.Store:
+						okUse = true // into the argument array of a variadic call
+						_ = y
+					case *ssa.Call:
+						okUse = isLogCall(y)
+					}
+					if !okUse {
+						return false
+					}
+				}
+			case *ssa.Call:
+				if !isLogCall(x) {
+					return false
+				}
+			case *ssa.DebugRef:
+			default:
+				return false
+			}
+		}
+	}
+	return true
+}
+
 // RuleIsoFresh: per-file objects are allocated per file.
 func (c *Ctx) RuleIsoFresh() *Result {
 	res := &Result{Rule: "ISO-FRESH", MinInst: 4}
@@ -707,6 +787,9 @@ func (c *Ctx) sharedWrites(cbs []*ssa.Function, reach map[*ssa.Function]*Edge) [
 				}
 				switch a := x.Addr.(type) {
 				case *ssa.FieldAddr:
+					if c.isTallyField(a, x) {
+						return // a counter that is only ever incremented and only read for a log line
+					}
 					base = a.X
 					if f := fieldOf(a); f != nil {
 						what = "field " + f.Name()
